@@ -37,16 +37,25 @@ func runCase(cs *Case) result {
 	if err != nil {
 		return result{parse: err.Error()}
 	}
+	return mkResult(vh.ExecProg(prog, cs.config()))
+}
+
+// config: the interp.Config of one execution of the case (a new one each time: the readers are consumed)
+func (cs *Case) config() *interp.Config {
 	cfg := &interp.Config{
 		Stdin: strings.NewReader(joinRecs(cs.Stdin)),
 		Args:  append([]string(nil), cs.Args...),
+		Vars:  append([]string(nil), cs.Vars...),
 		Argv0: "awk",
 	}
 	if cs.Sp != nil {
 		cfg.Stdin = strings.NewReader(cs.Sp.Stdin)
 		cfg.Vars = append([]string(nil), cs.Sp.Vars...)
 	}
-	res := vh.ExecProg(prog, cfg)
+	return cfg
+}
+
+func mkResult(res vh.RunResult) result {
 	r := result{ok: res.Panic == "", res: res, errd: res.Err != "", status: res.Status}
 	r.evs = parseTrace(res.Out)
 	return r
@@ -99,6 +108,10 @@ func runC11(c *vh.Ctx) {
 				os.WriteFile(name, []byte(content), 0o644)
 			}
 		}
+		if cs.Hist != nil {
+			runHistories(c, []*Case{cs})
+			return
+		}
 		cases = append(cases, cs)
 	} else {
 		cases = append(cases, corpusCases(pool)...)
@@ -107,6 +120,8 @@ func runC11(c *vh.Ctx) {
 	if c.ReplayFile != "" {
 		g = nil
 	}
+	var hists []*Case
+	var histRaw map[string]string
 	for i := 0; g != nil && i < c.N(500, 6000); i++ {
 		cases = append(cases, g.traceCase())
 	}
@@ -127,6 +142,7 @@ func runC11(c *vh.Ctx) {
 				panic(err)
 			}
 		}
+		histRaw = raw
 		cases = append(cases, spCorpus(raw)...)
 		for i := 0; i < c.N(1200, 15000); i++ {
 			cases = append(cases, g.specialCase(raw))
@@ -146,6 +162,9 @@ func runC11(c *vh.Ctx) {
 		for i := 0; i < c.N(4, 16); i++ {
 			cases = append(cases, g.longGetlineCase(lp))
 		}
+		// histories: one interp.Interpreter, several executions (history.go); generated after every other stream so that the
+		// cases above are the same as before for a given seed
+		hists = g.histories(histRaw, lp)
 	}
 	for _, cs := range cases {
 		if cs.Awk == "" {
@@ -219,6 +238,8 @@ func runC11(c *vh.Ctx) {
 			}
 		}
 	}
+
+	runHistories(c, hists)
 }
 
 func loadReplay(path string) (*Case, error) {
